@@ -349,13 +349,14 @@ def split_args(s):
 def edge_cover(nodes, edges, inits, max_len=60, limit=None):
     """Behaviours (lists of edge indexes) that start in an initial state and together traverse every
     edge of the graph at least once (greedy: follow an unvisited edge, else walk to the nearest state
-    that has one, else restart)."""
+    that has one, else restart).  Linear in the number of edges apart from the walks."""
+    import collections
     out = {}
     for i, (s, a, d) in enumerate(edges):
         out.setdefault(s, []).append(i)
-    unvisited = set(range(len(edges)))
+    todo = {s: collections.deque(v) for s, v in out.items()}      # unvisited out-edges per state
+    remaining = len(edges)
     behaviours = []
-    import collections
 
     def path_to_unvisited(src):
         # BFS over states to the nearest state having an unvisited outgoing edge
@@ -363,30 +364,30 @@ def edge_cover(nodes, edges, inits, max_len=60, limit=None):
         q = collections.deque([src])
         while q:
             u = q.popleft()
-            if any(i in unvisited for i in out.get(u, [])):
+            if todo.get(u):
                 p = []
                 while prev[u] is not None:
                     ei = prev[u]
                     p.append(ei)
                     u = edges[ei][0]
                 return list(reversed(p))
-            for ei in out.get(u, []):
+            for ei in out.get(u, ()):
                 v = edges[ei][2]
                 if v not in prev:
                     prev[v] = ei
                     q.append(v)
         return None
 
-    while unvisited:
+    while remaining:
         if limit and len(behaviours) >= limit:
             break
         cur = inits[0]
         beh = []
         while len(beh) < max_len:
-            nxt = [i for i in out.get(cur, []) if i in unvisited]
-            if nxt:
-                ei = nxt[0]
-                unvisited.discard(ei)
+            dq = todo.get(cur)
+            if dq:
+                ei = dq.popleft()
+                remaining -= 1
                 beh.append(ei)
                 cur = edges[ei][2]
                 continue
@@ -396,15 +397,16 @@ def edge_cover(nodes, edges, inits, max_len=60, limit=None):
             beh.extend(p)
             cur = edges[p[-1]][2]
         if not beh:
-            # remaining unvisited edges unreachable within max_len from init: take explicit path
+            # the nearest unvisited edge is further than max_len from here: take the explicit path
             p = path_to_unvisited(inits[0])
             if p is None:
                 break
-            ei = [i for i in out.get(edges[p[-1]][2] if p else inits[0], []) if i in unvisited][0]
-            unvisited.discard(ei)
+            tgt = edges[p[-1]][2] if p else inits[0]
+            ei = todo[tgt].popleft()
+            remaining -= 1
             beh = p + [ei]
         behaviours.append(beh)
-    return behaviours, len(unvisited)
+    return behaviours, remaining
 
 
 def write_ndjson(path, rows):
